@@ -1589,6 +1589,7 @@ func (e *Engine) checkEnsures(s *State, fr *Frame, results []Value, ret *ssa.Ret
 		}
 		s.addObligation("ensures", name, cl.Tag, ret.Pos(), t, cl.Src)
 		e.obligations[len(e.obligations)-1].Clause = cl.Expr
+		e.ensuresCover(s, fr, cl, name, resMap, resTypes, ret)
 	}
 	// at return#* asserts
 	for _, at := range c.Ats {
